@@ -356,7 +356,8 @@ class RepoInterp:
                 return self.interp._call_local(held_c, list(args), dict(kwargs), st)
             if isinstance(held_c, R) and held_c.kind in ("accessor", "partial"):
                 fval = held_c
-        if isinstance(fval, R) and fval.kind == "boundmethod" and isinstance(fval.fields.get("self"), Ref) and isinstance(call.func, ast.Name):
+        if isinstance(fval, R) and fval.kind == "boundmethod" and (isinstance(fval.fields.get("self"), Ref) or (isinstance(fval.fields.get("self"), S) and "cls" in fval.fields)) \
+                and isinstance(call.func, ast.Name):
             v_bm = self.call_value(fval, call, args, kwargs, st)
             if v_bm is not None:
                 return v_bm
@@ -584,6 +585,32 @@ class RepoInterp:
                     out_seq.append(x)
             return K(tuple(out_seq))
         # operator.attrgetter("a", "b.c") / operator.itemgetter(0, 2): first-class accessors
+        if fname in ("operator.is_", "operator.is_not", "operator.eq", "operator.ne", "operator.not_", "operator.truth", "operator.contains") and not kwargs \
+                and len(args) == (1 if fname in ("operator.not_", "operator.truth") else 2):
+            # the operator module's function forms of `is`, `==`, `not`, `in`: evaluated as the operator they stand for
+            opn = fname.split(".")[1]
+            names_o = [f"__op{i}" for i in range(len(args))]
+            saved_o = {n_: st.env.get(n_) for n_ in names_o}
+            for n_, a_ in zip(names_o, args):
+                st.env[n_] = a_
+            ld = [ast.Name(id=n_, ctx=ast.Load()) for n_ in names_o]
+            if opn in ("not_", "truth"):
+                node_o: ast.expr = ast.UnaryOp(op=ast.Not(), operand=ld[0]) if opn == "not_" else ast.UnaryOp(op=ast.Not(), operand=ast.UnaryOp(op=ast.Not(), operand=ld[0]))
+            elif opn == "contains":
+                node_o = ast.Compare(left=ld[1], ops=[ast.In()], comparators=[ld[0]])
+            else:
+                node_o = ast.Compare(left=ld[0], ops=[{"is_": ast.Is(), "is_not": ast.IsNot(), "eq": ast.Eq(), "ne": ast.NotEq()}[opn]], comparators=[ld[1]])
+            ast.copy_location(node_o, call)
+            ast.fix_missing_locations(node_o)
+            try:
+                t_o = it._truth_of(node_o, st)
+            finally:
+                for n_, v_ in saved_o.items():
+                    if v_ is None:
+                        st.env.pop(n_, None)
+                    else:
+                        st.env[n_] = v_
+            return K(t_o) if t_o is not None else None
         if fname in ("operator.attrgetter", "attrgetter", "operator.itemgetter", "itemgetter") and args and not kwargs and all(isinstance(a, K) for a in args):
             return R("accessor", what=K("attr" if fname.endswith("attrgetter") else "item"), names=K(tuple(args)))
         if isinstance(fval, R) and fval.kind == "accessor" and fval.fields["what"].v in ("attr", "item") and isinstance(call.func, ast.Name) and len(args) == 1 and not kwargs:
@@ -650,6 +677,16 @@ class RepoInterp:
                 return args[1]
             st.pending = st.pending or "StopIteration"
             return U("StopIteration")
+        if isinstance(fval, Ref) and fval.kind == "set" and meth in ("isdisjoint", "issubset", "issuperset") and len(args) == 1 and isinstance(st.deref(fval), list):
+            other_s = it.iterate(args[0], st)
+            if other_s is not None:
+                mine = [st.freeze(x) for x in st.deref(fval)]
+                theirs = [st.freeze(o_) for o_ in other_s]
+                if meth == "isdisjoint":
+                    return K(not any(x in mine for x in theirs))
+                if meth == "issubset":
+                    return K(all(x in theirs for x in mine))
+                return K(all(x in mine for x in theirs))
         if isinstance(fval, K) and isinstance(fval.v, frozenset) and meth == "isdisjoint" and len(args) == 1:
             other = it.iterate(args[0], st)
             if other is not None:
@@ -1180,6 +1217,28 @@ class RepoInterp:
             if raw is None:
                 return None
             return self._inline_call(raw, call, None, list(args), dict(kwargs), st)
+        if isinstance(fv, R) and fv.kind == "boundmethod" and isinstance(fv.fields.get("self"), S) and fv.fields["self"].name == "self" and isinstance(fv.fields.get("cls"), K):
+            # a bound method of the scenario's symbolic receiver
+            mn_b, _, cn_b = fv.fields["cls"].v.rpartition(".")
+            ci_b = self.repo.cls(mn_b, cn_b, required=False)
+            m_b = self.repo.method(ci_b, fv.fields["name"].v) if ci_b is not None else None
+            if m_b is None:
+                return None
+            # the call is presented to the scenario's hooks as `self.<name>(...)` (what it is), so that rules observing the
+            # receiver's method calls see it
+            fake_b = ast.Call(func=ast.Attribute(value=ast.Name(id="self", ctx=ast.Load()), attr=fv.fields["name"].v, ctx=ast.Load()), args=list(call.args), keywords=list(call.keywords))
+            ast.copy_location(fake_b, call)
+            ast.fix_missing_locations(fake_b)
+            if self.call_hook is not None:
+                hv = self.call_hook(fake_b, "self." + fv.fields["name"].v, fv.fields["self"], list(args), dict(kwargs), st)
+                if hv is not None:
+                    return hv
+            saved_b = self.self_class
+            self.self_class = ci_b
+            try:
+                return self.inline_call(m_b, fake_b, fv.fields["self"], list(args), dict(kwargs), st)
+            finally:
+                self.self_class = saved_b
         if isinstance(fv, R) and fv.kind == "boundmethod" and isinstance(fv.fields.get("self"), Ref):
             obj = fv.fields["self"]
             ci = self._class_of_ref(obj, st)
@@ -1241,7 +1300,7 @@ class RepoInterp:
             # a generator function: interpreted eagerly, the values it yields become the sequence the caller iterates
             mark = len(st.effects)
             self._inline_call(callee, call, fval, args, kwargs, st, generator_ok=True)
-            ys = [e[1] for e in st.effects[mark:] if e[0] == "yield"]
+            ys = [(e[2] if len(e) > 2 and isinstance(e[2], Ref) and e[2].kind == "obj" else e[1]) for e in st.effects[mark:] if e[0] == "yield"]
             if any(e[0] == "yield-from" for e in st.effects[mark:]):
                 return U("generator with yield from")
             st.effects[mark:] = [e for e in st.effects[mark:] if e[0] != "yield"]
